@@ -24,13 +24,20 @@ static const char *const ctr_names[VF_NCTR] = {
     "callback_invocations", "max_states_one_document", "max_history_length", "mismatches_left_to_other_property", "distinct_model_states"
 };
 
-#define MAXF 12
+#define MAXF 264            /* deepest reference-cursor stack (array towers of 255 levels) */
+#define KF_SMALL 12         /* frames stored in the visited-set key for ordinary documents */
 typedef struct {
-    int8_t  sp, done, after_raw, after_field, dead;
+    int16_t sp;
+    int8_t  done, after_raw, after_field, dead;
     int16_t pending;            /* container returned and not yet entered / extracted; -1 none */
     int16_t cur;                /* leaf the cursor is on after a successful next/lookup; -1 none */
     int16_t fr[MAXF], idx[MAXF];
 } mstate;
+#define MHEAD offsetof(mstate, fr)
+static int KF = KF_SMALL;   /* frames in the key for the current document (>= its nesting depth + 1) */
+static inline size_t mkey_size(void) { return MHEAD + (size_t) KF * 4; }
+static inline void mpack(uint8_t *dst, const mstate *m) { memcpy(dst, m, MHEAD); memcpy(dst + MHEAD, m->fr, (size_t) KF * 2); memcpy(dst + MHEAD + (size_t) KF * 2, m->idx, (size_t) KF * 2); }
+static inline void munpack(mstate *m, const uint8_t *src) { memset(m, 0, sizeof *m); memcpy(m, src, MHEAD); memcpy(m->fr, src + MHEAD, (size_t) KF * 2); memcpy(m->idx, src + MHEAD + (size_t) KF * 2, (size_t) KF * 2); }
 
 /* ---- configuration per property */
 static int P_C06, P_C07, P_C11;
@@ -45,15 +52,17 @@ static const vf_name names_trap[] = {
     { (const uint8_t *) LNAME, 128 }, { (const uint8_t *) "\x7f", 1 }, { (const uint8_t *) "\x80", 1 }, { (const uint8_t *) "\xff", 1 }
 };
 #define NTRAP 12
-/* second family for C07: a name that needs the 4-byte length prefix (32768 bytes), its 1-byte prefix and a later name */
-static uint8_t HUGE_NAME[32768];
-static vf_name names_huge[4];       /* "a" < "h" < "hhh...(32768)" < "z" */
-static vf_name QALL[NTRAP + 3];     /* query alphabet: the 12 trap names + the huge name, "h", "z" */
-#define NQALL (NTRAP + 3)
+/* second family for C07: names whose LENGTH sits on every prefix-width / counter-width boundary, and pairs that share
+ * a prefix of 256 and of 65536 bytes (a comparison that truncates its length to 8 or 16 bits sees them as equal) */
+#define NHUGE 10
+static uint8_t HBUF[32768], KBUF[4][65537], MBUF[127];
+static vf_name names_huge[NHUGE];   /* "a" < "h" < h*32767 < h*32768 < k*256+"a" < k*256+"b" < k*65536+"a" < k*65536+"b" < m*127 < "z" */
+static vf_name QALL[NTRAP + NHUGE]; /* query alphabet: the 12 trap names + the 10 boundary names */
+#define NQALL (NTRAP + NHUGE)
 
 /* ops: 'n' next, 'O' 'A' enter, 'o' 'a' leave, 'r' get_raw, 'w' to_writer,
- * 0x80|variant<<4|q : lookups (variant 0 field_with_length, 1 field (strlen),
- * 2 field_ensure_with_length(INTEGER), 3 field_ensure_with_length(OBJECT)) */
+ * 0x80|variant<<5|q : lookups (variant 0 field_with_length, 1 field (strlen),
+ * 2 field_ensure_with_length(INTEGER), 3 field_ensure_with_length(OBJECT); q = index into the query alphabet, < 32) */
 typedef uint8_t op_t;
 static const char *op_name(op_t op, char *tmp)
 {
@@ -69,10 +78,10 @@ static const char *op_name(op_t op, char *tmp)
     case 'V': return "verify";
     default: {
         static const char *const v[] = { "field_with_length", "field", "field_ensure_INTEGER", "field_ensure_OBJECT" };
-        int q = op & 15;
+        int q = op & 31;
         char hx[300];
         vf_hex(hx, Q[q].p, Q[q].len > 8 ? 8 : Q[q].len);
-        sprintf(tmp, "%s(%s%s)", v[(op >> 4) & 3], hx, Q[q].len > 8 ? (Q[q].len > 128 ? "..32768bytes" : "..128bytes") : "");
+        sprintf(tmp, "%s(%s%s[%zu bytes])", v[(op >> 5) & 3], hx, Q[q].len > 8 ? ".." : "", Q[q].len);
         return tmp;
     }
     }
@@ -88,6 +97,7 @@ static uint32_t *PARENT;
 static op_t *OPOF;
 static size_t PCAP;
 static vf_set MSET;
+static size_t MSET_REC;
 static uint64_t cb_count;
 static size_t cb_maxused;
 
@@ -132,7 +142,7 @@ static const char *kind_name(int k) { static const char *const n[] = { "none", "
 /* the query bytes of a lookup op */
 static void op_query(op_t op, const uint8_t **q, size_t *ql)
 {
-    int v = (op >> 4) & 3, qi = op & 15;
+    int v = (op >> 5) & 3, qi = op & 31;
     *q = Q[qi].p;
     *ql = Q[qi].len;
     if (v == 1) *ql = strnlen((const char *) Q[qi].p, Q[qi].len);
@@ -146,8 +156,8 @@ static bool m_enabled(const mstate *m, op_t op)
     int top = m->sp ? m->fr[m->sp - 1] : -1;
     switch (op) {
     case 'n': return m->sp > 0;
-    case 'O': return m->pending >= 0 && D->n[m->pending].kind == VK_OBJ;
-    case 'A': return m->pending >= 0 && D->n[m->pending].kind == VK_ARR;
+    case 'O': return m->pending >= 0 && D->n[m->pending].kind == VK_OBJ && m->sp < KF;
+    case 'A': return m->pending >= 0 && D->n[m->pending].kind == VK_ARR && m->sp < KF;
     case 'o': return m->sp > 0 && D->n[top].kind == VK_OBJ;
     case 'a': return m->sp > 0 && D->n[top].kind == VK_ARR;
     case 'r': case 'w': return m->pending > 0 || (P_C11 && m->cur >= 0);
@@ -201,7 +211,7 @@ static void m_step(mstate *m, op_t op, expect *e)
     default: {
         const uint8_t *q; size_t ql;
         op_query(op, &q, &ql);
-        int v = (op >> 4) & 3;
+        int v = (op >> 5) & 3;
         const vf_node *c = &D->n[m->fr[t]];
         e->ret = false;
         while (m->idx[t] < c->nch) {
@@ -353,18 +363,23 @@ static bool do_op(mstate *m, op_t op, mismatch *mm, bool counting)
     }
     default: {
         const uint8_t *q; size_t ql;
-        int v = (op >> 4) & 3;
-        int qi = op & 15;
-        /* hand the library a private exact-size copy of the query (ASan guards its ends) */
+        int v = (op >> 5) & 3;
+        int qi = op & 31;
+        /* the library gets private heap copies of the query made once per process: an exact-size one (ASan guards both
+         * ends) for the explicit-length calls, a NUL-terminated one for the strlen-based call */
+        static char *qexact[32], *qz[32];
         size_t full = Q[qi].len;
-        char *qc = (char *) vf_xmalloc(full + 1);
-        memcpy(qc, Q[qi].p, full);
-        qc[full] = 0;
+        if (!qexact[qi]) {
+            qexact[qi] = (char *) vf_xmalloc(full ? full : 1);
+            memcpy(qexact[qi], Q[qi].p, full);
+            qz[qi] = (char *) vf_xmalloc(full + 1);
+            memcpy(qz[qi], Q[qi].p, full);
+            qz[qi][full] = 0;
+        }
         op_query(op, &q, &ql);
-        if (v == 0) r = binson_parser_field_with_length(L.p, qc, full);
-        else if (v == 1) r = binson_parser_field(L.p, qc);
-        else r = binson_parser_field_ensure_with_length(L.p, qc, full, v == 2 ? BINSON_TYPE_INTEGER : BINSON_TYPE_OBJECT);
-        free(qc);
+        if (v == 0) r = binson_parser_field_with_length(L.p, full ? qexact[qi] : qexact[qi] + 1, full);
+        else if (v == 1) r = binson_parser_field(L.p, qz[qi]);
+        else r = binson_parser_field_ensure_with_length(L.p, full ? qexact[qi] : qexact[qi] + 1, full, v == 2 ? BINSON_TYPE_INTEGER : BINSON_TYPE_OBJECT);
         break;
     }
     }
@@ -540,7 +555,7 @@ static void report(size_t from, op_t op, const mstate *before, const mismatch *m
     L = keep;
     char ctx[100], tmp[128], sig[400];
     model_context(before, ctx, sizeof ctx);
-    snprintf(sig, sizeof sig, "nav:%s:%s:%s", (op & 0x80) ? ((op >> 4) & 2 ? "field_ensure" : "field") : op_name(op, tmp), mm->sigctx, ctx);
+    snprintf(sig, sizeof sig, "nav:%s:%s:%s", (op & 0x80) ? ((op >> 5) & 2 ? "field_ensure" : "field") : op_name(op, tmp), mm->sigctx, ctx);
     vf_str b = { 0 };
     describe_case(&b, h, n, op);
     vf_str_printf(&b, "mismatch: %s\n", mm->why);
@@ -552,7 +567,7 @@ static void explore_config(const op_t *ops, int nops)
 {
     init_live();
     size_t isz = vf_snap_size(MD);
-    size_t rec = isz + sizeof(mstate);
+    size_t rec = isz + mkey_size();
     if (rec != SET_REC) {
         if (SET_REC) vf_set_free(&SET);
         vf_set_init(&SET, rec);
@@ -560,7 +575,7 @@ static void explore_config(const op_t *ops, int nops)
     } else {
         vf_set_clear(&SET);
     }
-    vf_set_clear(&MSET);
+    if (mkey_size() != MSET_REC) { if (MSET_REC) vf_set_free(&MSET); vf_set_init(&MSET, mkey_size()); MSET_REC = mkey_size(); } else vf_set_clear(&MSET);
     uint8_t *key = (uint8_t *) alloca(rec);
     vf_snap snap;
     mstate m0;
@@ -569,14 +584,14 @@ static void explore_config(const op_t *ops, int nops)
     L.p->cb = count_cb; L.p->cb_context = NULL;
     vf_snap_save(&snap, &L);
     memcpy(key, &snap, isz);
-    memcpy(key + isz, &m0, sizeof m0);
+    mpack(key + isz, &m0);
     bool isnew;
     vf_set_insert(&SET, key, &isnew);
-    vf_set_insert(&MSET, &m0, &isnew);
+    vf_set_insert(&MSET, key + isz, &isnew);
     vf_count(CT_CONFIGS, 1);
     for (size_t s = 0; s < SET.n; s++) {
         mstate ms;
-        memcpy(&ms, vf_set_at(&SET, s) + isz, sizeof ms);
+        munpack(&ms, vf_set_at(&SET, s) + isz);
         for (int oi = 0; oi < nops; oi++) {
             op_t op = ops[oi];
             if (!m_enabled(&ms, op)) continue;
@@ -593,7 +608,7 @@ static void explore_config(const op_t *ops, int nops)
             L.p->cb = count_cb; L.p->cb_context = NULL;
             vf_snap_save(&snap, &L);
             memcpy(key, &snap, isz);
-            memcpy(key + isz, &m, sizeof m);
+            mpack(key + isz, &m);
             size_t idx = vf_set_insert(&SET, key, &isnew);
             if (isnew) {
                 if (idx >= PCAP) {
@@ -603,7 +618,7 @@ static void explore_config(const op_t *ops, int nops)
                 }
                 PARENT[idx] = (uint32_t) s;
                 OPOF[idx] = op;
-                vf_set_insert(&MSET, &m, &isnew);
+                vf_set_insert(&MSET, key + isz, &isnew);
             }
         }
     }
@@ -611,12 +626,12 @@ static void explore_config(const op_t *ops, int nops)
     vf_count(CT_MODEL_STATES, MSET.n);
     vf_max(CT_MAXSTATES, SET.n);
     if (vf_want_sample() && SET.n > 20) {
-        op_t h[64];
+        static op_t h[4100];
         char tmp[128];
-        int n = history_of(SET.n - 1, h, 64);
+        int n = history_of(SET.n - 1, h, 4096);
         vf_str s = { 0 };
-        vf_str_printf(&s, "doc %s (%s root, max_depth %d): %zu product states; deepest history:", vf_shape(D), D->root_kind == VK_OBJ ? "object" : "array", MD, SET.n);
-        for (int i = 0; i < n; i++) vf_str_printf(&s, " %s", op_name(h[i], tmp));
+        vf_str_printf(&s, "doc %.200s (%s root, max_depth %d): %zu product states; deepest history (%d calls):", vf_shape(D), D->root_kind == VK_OBJ ? "object" : "array", MD, SET.n, n);
+        for (int i = 0; i < n && i < 24; i++) vf_str_printf(&s, " %s", op_name(h[i], tmp));
         vf_sample("%s", s.s);
         vf_str_free(&s);
     }
@@ -639,11 +654,83 @@ static int needed_depth(const vf_doc *d)
     return best;
 }
 
-static op_t OPS[80];
+static op_t OPS[160];
 static int NOPS;
+static int nesting_of(const vf_doc *d)
+{
+    int best = 0;
+    for (int i = 0; i < d->nn; i++) {
+        if (d->n[i].kind != VK_OBJ && d->n[i].kind != VK_ARR) continue;
+        int k = 0;
+        for (int x = i; x >= 0; x = d->n[x].parent) k++;
+        if (k > best) best = k;
+    }
+    return best;
+}
+static void explore_config(const op_t *ops, int nops);
+static int needed_depth(const vf_doc *d);
+static void handle_doc(vf_doc *d)
+{
+    D = d;
+    /* oracle self-check: the independent decoder must reproduce the generator's tree */
+    static vf_doc R;
+    int v = vf_ref_decode(D->bytes, D->len, D->root_kind, 255, &R);
+    R.bytes = D->bytes; R.len = D->len;
+    if (v != VR_OK || !vf_tree_equal(D, &R)) vf_die("reference decoder disagrees with generator on %s", vf_shape(D));
+    vf_count(CT_DOCS, 1);
+    KF = nesting_of(D) + 1 < KF_SMALL ? KF_SMALL : MAXF;
+    int need = needed_depth(D);
+    if (need + 1 > VF_MAXDEPTH_SNAP) vf_die("document too deep for the snapshot type");
+    MD = need;
+    explore_config(OPS, NOPS);
+    MD = need + 1;
+    explore_config(OPS, NOPS);
+}
 static int g_w, g_W;
-static uint64_t g_start, g_docindex;
+static uint64_t g_start;
 
+static int N_TOK, N_TOK_DEEP, N_BIG;
+static uint64_t g_docindex;
+static bool take_doc(void)
+{
+    uint64_t di = g_docindex++;
+    if (di < g_start || (int) (di % (uint64_t) g_W) != g_w) return false;
+    vf_set_index(di);
+    return !vf_deadline_passed();
+}
+/* nesting towers: k arrays, each holding the inner array followed by an integer, the innermost holding [int, string];
+ * also as the value of a field, followed by another field. k up to 255 = the array nesting limit. */
+static void towers(void)
+{
+    static vf_doc t;
+    static const int ks[] = { 2, 13, 126, 127, 128, 129, 200, 254, 255 };
+    for (size_t ki = 0; ki < sizeof ks / sizeof ks[0]; ki++)
+        for (int variant = 0; variant < 2; variant++) {
+            int k = ks[ki] - variant;       /* inside an object field one level is used by ... nothing: arrays count per object level */
+            if (k < 1) continue;
+            if (!take_doc()) continue;
+            vf_b_reset(&t);
+            int leaf = 0;
+            if (variant) { vf_b_open(&t, VK_OBJ); vf_b_name(&t, "a", 1); k = ks[ki]; }
+            for (int i = 0; i < k; i++) vf_b_open(&t, VK_ARR);
+            vf_b_int(&t, ++leaf); vf_b_blob(&t, VK_STR, "s", 1);
+            for (int i = 0; i < k; i++) { vf_b_close(&t); if (i < k - 1) vf_b_int(&t, 10 + (++leaf) % 100); }
+            if (variant) { vf_b_name(&t, "b", 1); vf_b_int(&t, 99); vf_b_close(&t); }
+            handle_doc(&t);
+        }
+    /* object towers up to the snapshot limit */
+    static const int os[] = { 10, 14 };
+    for (int oi = 0; oi < 2; oi++) {
+        if (!take_doc()) continue;
+        vf_b_reset(&t);
+        vf_b_open(&t, VK_OBJ);
+        for (int i = 1; i < os[oi]; i++) { vf_b_name(&t, "a", 1); vf_b_open(&t, VK_OBJ); }
+        vf_b_name(&t, "a", 1); vf_b_int(&t, 1);
+        for (int i = 1; i < os[oi]; i++) { vf_b_close(&t); vf_b_name(&t, "b", 1); vf_b_int(&t, 2 + i); }
+        vf_b_close(&t);
+        handle_doc(&t);
+    }
+}
 static void on_doc(vf_gen *g, void *u)
 {
     (void) u;
@@ -651,43 +738,36 @@ static void on_doc(vf_gen *g, void *u)
     if (di < g_start || (int) (di % (uint64_t) g_W) != g_w) return;
     if (vf_deadline_passed()) { g->stop = true; return; }
     vf_set_index(di);
-    D = &g->doc;
-    /* oracle self-check: the independent decoder must reproduce the generator's tree */
-    static vf_doc R;
-    int v = vf_ref_decode(D->bytes, D->len, D->root_kind, 255, &R);
-    R.bytes = D->bytes; R.len = D->len;
-    if (v != VR_OK || !vf_tree_equal(D, &R)) vf_die("reference decoder disagrees with generator on %s", vf_shape(D));
-    vf_count(CT_DOCS, 1);
-    int need = needed_depth(D);
-    MD = need;
-    explore_config(OPS, NOPS);
-    MD = need + 1;
-    explore_config(OPS, NOPS);
+    handle_doc(&g->doc);
 }
-
-static int N_TOK, N_TOK_DEEP;
 static void worker(int w, int W, uint64_t start)
 {
     g_w = w; g_W = W; g_start = start; g_docindex = 0;
     vf_fatal_describe = fatal_describe;
-    vf_set_init(&MSET, sizeof(mstate));
     static const int cls_nav[] = { LC_INT8, LC_STR, LC_STR128, LC_OBJ, LC_ARR };     /* LC_STR128: a value with a 2-byte length prefix to skip over */
     static const int cls_nav4[] = { LC_INT8, LC_STR, LC_OBJ, LC_ARR };
+    static const int cls_big[] = { LC_INT8, LC_STR32K, LC_BYT32K, LC_OBJ, LC_ARR };  /* values that need the 4-byte length prefix */
     static const int cls_c07[] = { LC_INT8, LC_OBJ, LC_ARR };
     static vf_gen g;
-    /* pass 0: the full leaf alphabet up to N_TOK tokens; pass 1 (C06/C11 thorough): one token deeper without the long string */
-    for (int pass = 0; pass < ((N_TOK_DEEP > N_TOK || P_C07) ? 2 : 1); pass++)
+    if (!P_C07) towers();
+    /* pass 0: the full leaf alphabet up to N_TOK tokens; pass 1 (C06/C11 thorough): one token deeper without the long string;
+     * C07 pass 1: the boundary-length name family; pass 2 (C06/C11): 32768-byte values */
+    for (int pass = 0; pass < 3; pass++) {
+        if (pass == 1 && !(N_TOK_DEEP > N_TOK || P_C07)) continue;
+        if (pass == 2 && P_C07) continue;
         for (int root = VK_OBJ; root <= VK_ARR; root++) {
             memset(&g, 0, sizeof g);
             g.root_kind = root;
-            g.max_tokens = pass ? N_TOK_DEEP : N_TOK;
-            if (P_C07 && pass) { g.classes = cls_c07; g.nclasses = 3; g.names = names_huge; g.nnames = 4; g.max_obj_depth = 2; g.max_tokens = N_TOK - 1; }
+            g.max_tokens = pass == 1 ? N_TOK_DEEP : N_TOK;
+            if (P_C07 && pass) { g.classes = cls_c07; g.nclasses = 3; g.names = names_huge; g.nnames = NHUGE; g.max_obj_depth = 2; g.max_tokens = N_TOK - 1; }
             else if (P_C07) { g.classes = cls_c07; g.nclasses = 3; g.names = names_trap; g.nnames = NTRAP; g.max_obj_depth = 3; }
-            else if (pass) { g.classes = cls_nav4; g.nclasses = 4; g.names = vf_names_abc; g.nnames = 3; g.max_obj_depth = 6; }
+            else if (pass == 2) { g.classes = cls_big; g.nclasses = 5; g.names = vf_names_abc; g.nnames = 2; g.max_obj_depth = 3; g.max_tokens = N_BIG; }
+            else if (pass == 1) { g.classes = cls_nav4; g.nclasses = 4; g.names = vf_names_abc; g.nnames = 3; g.max_obj_depth = 6; }
             else { g.classes = cls_nav; g.nclasses = 5; g.names = vf_names_abc; g.nnames = 3; g.max_obj_depth = 6; }
             g.cb = on_doc;
             vf_gen_run(&g);
         }
+    }
 }
 
 static void replay_main(void)
@@ -696,7 +776,7 @@ static void replay_main(void)
     char *root = vf_replay_get(t, "root"), *md = vf_replay_get(t, "max_depth"), *hex = vf_replay_get(t, "doc_hex"), *ops = vf_replay_get(t, "ops");
     if (!root || !md || !hex || !ops) vf_die("replay file lacks root/max_depth/doc_hex/ops");
     static vf_doc R;
-    static uint8_t bytes[1 << 18];
+    static uint8_t bytes[1 << 19];
     long n = vf_unhex(bytes, sizeof bytes, hex);
     if (n < 0) vf_die("bad doc_hex");
     int kind = !strcmp(root, "object") ? VK_OBJ : VK_ARR;
@@ -731,29 +811,37 @@ int main(int argc, char **argv)
     vf_main_init(argc, argv, "nav", ctr_names);
     P_C06 = !strcmp(vf_g.prop, "C06"); P_C07 = !strcmp(vf_g.prop, "C07"); P_C11 = !strcmp(vf_g.prop, "C11");
     if (!P_C06 && !P_C07 && !P_C11) vf_die("nav decides C06, C07, C11");
-    memset(HUGE_NAME, 'h', sizeof HUGE_NAME);
+    memset(HBUF, 'h', sizeof HBUF); memset(MBUF, 'm', sizeof MBUF);
+    for (int i = 0; i < 4; i++) memset(KBUF[i], 'k', sizeof KBUF[i]);
+    KBUF[0][256] = 'a'; KBUF[1][256] = 'b'; KBUF[2][65536] = 'a'; KBUF[3][65536] = 'b';
     names_huge[0] = (vf_name) { (const uint8_t *) "a", 1 }; names_huge[1] = (vf_name) { (const uint8_t *) "h", 1 };
-    names_huge[2] = (vf_name) { HUGE_NAME, sizeof HUGE_NAME }; names_huge[3] = (vf_name) { (const uint8_t *) "z", 1 };
+    names_huge[2] = (vf_name) { HBUF, 32767 }; names_huge[3] = (vf_name) { HBUF, 32768 };
+    names_huge[4] = (vf_name) { KBUF[0], 257 }; names_huge[5] = (vf_name) { KBUF[1], 257 };
+    names_huge[6] = (vf_name) { KBUF[2], 65537 }; names_huge[7] = (vf_name) { KBUF[3], 65537 };
+    names_huge[8] = (vf_name) { MBUF, 127 }; names_huge[9] = (vf_name) { (const uint8_t *) "z", 1 };
+    for (int i = 1; i < NHUGE; i++)
+        if (vf_name_cmp(names_huge[i - 1].p, names_huge[i - 1].len, names_huge[i].p, names_huge[i].len) >= 0) vf_die("boundary name alphabet is not ascending at %d", i);
     for (int i = 0; i < NTRAP; i++) QALL[i] = names_trap[i];
-    QALL[NTRAP] = names_huge[2]; QALL[NTRAP + 1] = names_huge[1]; QALL[NTRAP + 2] = names_huge[3];
+    for (int i = 0; i < NHUGE; i++) QALL[NTRAP + i] = names_huge[i];
     Q = QALL; NQ = NQALL;
     NOPS = 0;
     static const char base6[] = "nOAoar";
     for (int i = 0; i < 6; i++) OPS[NOPS++] = (op_t) base6[i];
     if (P_C11) OPS[NOPS++] = 'w';
     if (P_C06) { OPS[NOPS++] = 'R'; OPS[NOPS++] = 'V'; }
-    if (P_C07) for (int v = 0; v < 4; v++) for (int q = 0; q < NQ; q++) OPS[NOPS++] = (op_t) (0x80 | (v << 4) | q);
+    if (P_C07) for (int v = 0; v < 4; v++) for (int q = 0; q < NQ; q++) OPS[NOPS++] = (op_t) (0x80 | (v << 5) | q);
     const char *e = getenv("VERIF_N");
     if (P_C07) N_TOK = vf_g.thorough ? 4 : 3; else N_TOK = vf_g.thorough ? 6 : 5;
     if (e) N_TOK = atoi(e);
     N_TOK_DEEP = (!P_C07 && vf_g.thorough && !e) ? 7 : 0;
-    if (vf_g.replay) { vf_set_init(&MSET, sizeof(mstate)); replay_main(); }
+    N_BIG = vf_g.thorough ? 3 : 2;
+    if (vf_g.replay) replay_main();
     int deaths = vf_run_workers(worker);
     static char bound[400], rule[600];
     snprintf(bound, sizeof bound,
              "all valid object- and array-rooted documents with <= %d value tokens over leaves {%s} and containers {object,array}%s, names %s; "
              "max_depth = needed and needed+1; per document: fixpoint over ALL protocol-following call sequences (any length) of %d operations",
-             N_TOK, P_C07 ? "int" : "int,string,128-byte string", N_TOK_DEEP ? " and with <= 7 value tokens over {int,string,object,array}" : "", P_C07 ? "12 order-trap names (empty, NUL, prefixes, a pair differing only after an embedded NUL, a 128-byte name, 0x7f/0x80/0xff); plus all documents with one token less over names {a, h, a 32768-byte name (4-byte length prefix), z}; 15 query names" : "a<b<c", NOPS);
+             N_TOK, P_C07 ? "int" : "int,string,128-byte string", N_TOK_DEEP ? " and with <= 7 value tokens over {int,string,object,array}" : "", P_C07 ? "12 order-trap names (empty, NUL, prefixes, a pair differing only after an embedded NUL, a 128-byte name, 0x7f/0x80/0xff); plus all documents with one token less over 10 names whose lengths sit on the prefix-width and counter-width boundaries (1, 127, 257 x2, 32767, 32768, 65537 x2); 22 query names" : "a<b<c", NOPS);
     snprintf(rule, sizeof rule,
              "grammar-directed exhaustive enumeration of documents; breadth-first search over (byte image of parser+state[], reference cursor state), "
              "deduplicated by exact comparison; each transition is one real API call checked against the reference cursor");
